@@ -654,6 +654,15 @@ class CustomSD(BaseCorrelations):
         if shape == 'upper-triangle':
             integral = self.eta_function(time_1 + delta, **kwargs) \
                        - self.eta_function(time_1, **kwargs)
+            if time_1 != 0.0:
+                # the difference above is the integral over a trapezoid;
+                # remove the rectangle below the triangle at time_1
+                integral -= delta * _complex_integral(
+                    lambda tau: self.correlation(tau, **kwargs),
+                    a=0.0,
+                    b=time_1,
+                    epsrel=epsrel,
+                    limit=subdiv_limit)
         elif shape == 'square':
             integral = self.eta_function(time_1 + delta, **kwargs) \
                        - 2.0 * self.eta_function(time_1, **kwargs) \
